@@ -153,6 +153,54 @@ def ensure_setup():
 _tlc_counter = [0]
 
 
+def _cpu_ticks(pid):
+    try:
+        f = open(f"/proc/{pid}/stat").read().rsplit(")", 1)[1].split()
+        return int(f[11]) + int(f[12])
+    except (OSError, IndexError, ValueError):
+        return None
+
+
+def _run_watched(cmd, env, timeout):
+    """runs TLC; returns (output, rc); rc 124 = wall-clock timeout, rc 125 = killed because the JVM used no CPU
+    for 90 s (a hung TLC, see run_tlc)"""
+    import tempfile
+    with tempfile.TemporaryFile(mode="w+") as fo:
+        p = subprocess.Popen(cmd, cwd=SPEC, env=env, stdout=fo, stderr=subprocess.STDOUT, text=True)
+        t0 = time.time()
+        last_ticks, last_change = _cpu_ticks(p.pid), time.time()
+        rc = None
+        while True:
+            try:
+                rc = p.wait(timeout=3)
+                break
+            except subprocess.TimeoutExpired:
+                pass
+            now = time.time()
+            ticks = _cpu_ticks(p.pid)
+            # "progress" = at least 1 % of one core since the last mark (an idle JVM still burns a few ticks in its
+            # housekeeping threads)
+            if ticks is not None and last_ticks is not None and ticks - last_ticks > (now - last_change) * 1.0 + 20:
+                last_ticks, last_change = ticks, now
+            elif last_ticks is None:
+                last_ticks, last_change = ticks, now
+            if now - t0 > timeout:
+                p.kill()
+                p.wait()
+                rc = 124
+                break
+            if now - last_change > 90:
+                p.kill()
+                p.wait()
+                rc = 125
+                break
+        fo.seek(0)
+        out = fo.read()
+    if rc == 124:
+        out += "\nTIMEOUT"
+    return out, rc
+
+
 def run_tlc(module, cfg, workdir, env=None, workers=1, timeout=1800, extra=(), xmx="3g", simulate=None):
     """run TLC on spec/<module>.tla with spec/<cfg>; returns dict(rc, out, states, distinct, depth)"""
     ensure_setup()
@@ -169,13 +217,17 @@ def run_tlc(module, cfg, workdir, env=None, workers=1, timeout=1800, extra=(), x
     if simulate:
         cmd += ["-simulate", simulate]
     cmd += list(extra) + [module + ".tla"]
-    try:
-        r = subprocess.run(cmd, cwd=SPEC, env=e, capture_output=True, text=True, timeout=timeout)
-        out, rc = r.stdout + r.stderr, r.returncode
-    except subprocess.TimeoutExpired as ex:
-        out = (ex.stdout or b"").decode(errors="replace") if isinstance(ex.stdout, bytes) else (ex.stdout or "")
-        out += "\nTIMEOUT"
-        rc = 124
+    out, rc = _run_watched(cmd, e, timeout)
+    if rc == 125:
+        # TLC 1.8 occasionally deadlocks at the end of a run (main thread in StateQueue.suspendAll, the worker in
+        # StateQueue.isAvail, no CPU use): the watchdog killed it - run it again (twice at most)
+        for _ in range(2):
+            out, rc = _run_watched(cmd, e, timeout)
+            if rc != 125:
+                break
+        if rc == 125:
+            out += "\nTLC made no progress (no CPU use for 90 s) three times in a row"
+            rc = 124
     shutil.rmtree(meta, ignore_errors=True)
     shutil.rmtree(tmpd, ignore_errors=True)
     res = {"rc": rc, "out": out, "states": 0, "distinct": 0, "depth": 0}
@@ -350,7 +402,7 @@ def split_trace(path, chunk):
 
 EVAL_ERRORS = ("which is out of bounds", "not in the domain of the function", "Attempted to select field",
                "Attempted to apply the function", "Attempted to access index", "to a non-record value",
-               "Attempted to compute the value of an expression of form")
+               "Attempted to compute the value of an expression of form", "of a non-finite value")
 
 
 def unevaluable_step(out, chunk_path):
@@ -373,10 +425,24 @@ def unevaluable_step(out, chunk_path):
         return None
     if not 1 <= line <= n:
         return None
-    i = out.find("Attempted")
-    msg = " ".join(out[i:i + 300].split()) if i >= 0 else "evaluation error"
+    nonfinite = "of a non-finite value" in out
+    i = out.find("of a non-finite value") if nonfinite else out.find("Attempted to access")
+    if i < 0:
+        i = out.find("Attempted")
+    msg = " ".join(out[max(i - 40, 0):i + 260].split()) if i >= 0 else "evaluation error"
+    op = "?"
+    try:
+        with open(chunk_path) as fh:
+            for k, ln in enumerate(fh, 1):
+                if k == line:
+                    op = str(json.loads(ln).get("op", "?"))
+                    break
+    except (OSError, ValueError):
+        pass
     return {"lines": n, "consumed": n, "cov": {}, "unevaluable": True,
-            "bad": [{"line": line, "clause": "SPEC.unevaluable", "op": "?", "stratum": "-", "err": msg, "tol": "every recorded step must be a step of the specification"}]}
+            "bad": [{"line": line, "clause": "SPEC.nonfinite" if nonfinite else "SPEC.unevaluable", "op": op, "stratum": "-",
+                     "err": ("the library returned a non-finite number where the specification needs a value: " if nonfinite else "") + msg,
+                     "tol": "every recorded step must be a step of the specification"}]}
 
 
 def validate_chunk(module, cfg, chunk_path, workdir, timeout):
